@@ -81,7 +81,7 @@ macro_rules
          have hC := cnt_ge isCheck hw
          have ⟨iD, iM, iS, iG, iR, iE⟩ := $hi
          refine ⟨?_, ?_, ?_, ?_, ?_, ?_⟩ <;>
-           simp [Option.isSome_iff_ne_none, Res.isErr, cnt_set hw, notDone, isRetErr, isCheck, noFailure, ($hs).workerCancelled, ($hs).workerFailed, ($hs).seqStops, ($hs).seqLoop] at * <;> grind))
+           simp [Option.isSome_iff_ne_none, Res.isErr, cnt_set hw, notDone, isRetErr, isCheck, noFailure, ($hs).workerCancelled, ($hs).workerFailed, ($hs).seqStops, ($hs).seqLoop, ($hs).seqInit, ($hs).seqPost, effN_eq $hs] at * <;> grind))
 
 theorem inv2_step {cfg : Cfg} (hs : cfg.code.Sound) {s s' : St} {l : Label} (hi : Inv2 cfg s)
     (h : step cfg s l = some s') : Inv2 cfg s' := by
